@@ -195,6 +195,7 @@ PROPS["C11"] = dict(
     steps=[
         dict(test="^Test(Regress_C11|C11_Sites)$", quick=dict(checks=150, timeout=900), thorough=dict(checks=6000, shards=8, timeout=3000)),
         dict(test="^TestC11_Concurrent$", quick=dict(timeout=900), thorough=dict(timeout=3000)),
+        dict(test="^TestC11_Saturated$", quick=dict(checks=60, timeout=900), thorough=dict(checks=1500, shards=2, timeout=3000)),
         dict(test="^TestC11_ManySites$", quick=dict(checks=3, timeout=900), thorough=dict(checks=60, shards=2, timeout=3000)),
     ],
 )
